@@ -269,7 +269,9 @@ class Sweeper:
         except Unknown as e:
             syms = sorted(s for s in getattr(e, "symbols", ()) if len(s) == 3 and s.startswith("in") and s[2].isdigit())
             idx = [int(s[2]) + 1 for s in syms if int(s[2]) + 1 not in fixed]
-            if 1 not in fixed:
+            if idx and 1 not in idx and syms:
+                k = idx[0]                  # the branch names the operand byte it hinges on: split that byte only
+            elif 1 not in fixed:
                 k = 1                       # the mode/selector byte decides most control flow
             elif idx:
                 k = idx[0]
